@@ -165,6 +165,10 @@ TStep ==
           /\ Chk("C05", "EarlyTermsProgress",
                  \A m \in DOMAIN G.et : (G.et[m].s # {} /\ e.st.epoch - G.et[m].at >= 2 * W_ /\ m \notin G'.lost /\ (e.ev # "Tick" \/ e.cronOK))
                                             => ~(G.et[m].s \subseteq EtqSectors(MinerOf(e.st, m))), "-", e)
+          \* (C15 reads the same bound as "is charged": a sector cannot wait for its termination fee indefinitely)
+          /\ Chk("C15", "EarlyTerminationCharged",
+                 \A m \in DOMAIN G.et : (G.et[m].s # {} /\ e.st.epoch - G.et[m].at >= 2 * W_ /\ m \notin G'.lost /\ (e.ev # "Tick" \/ e.cronOK))
+                                            => ~(G.et[m].s \subseteq EtqSectors(MinerOf(e.st, m))), "-", e)
           /\ Chk("C15", "CronTerminationFee", CronTerminationFee(Wd, e, G'.lost), "-", e)
           /\ Chk("C05", "CronNeverFails", e.ev # "Tick" \/ e.cronOK \/ OnlyInjected(e), IF e.ev = "Tick" THEN CronFailTag(Wd, G, e) ELSE "-", e)
           /\ Chk("C05", "NoBalanceInvariantBroken", e.ev = "Tick" \/ e.code # 1000, "-", e)
